@@ -401,6 +401,9 @@ func RunCase(t *testing.T, spec CaseSpec) *CaseResult {
 		res.Nontrivial = faultInFlight
 	}
 	res.Hash = hashStrings(spec.Prop, fmt.Sprint(describeScenario(sc)), scheduleSignature(r))
+	for _, x := range res.Runs {
+		x.release()
+	}
 	return res
 }
 
@@ -510,9 +513,18 @@ func checkC03Resume(t *testing.T, res *CaseResult, main *Run) []Violation {
 	}
 	cs := res.Tape.S("resume")
 	picks := []int{}
-	if res.Spec.Tier == "thorough" {
+	big := 0
+	for _, f := range sc.Hist.Files {
+		big += int(f.Size - f.Gap)
+	}
+	if res.Spec.Tier == "thorough" && big < 1<<20 && len(calls) <= 60 {
 		for k := range calls {
 			picks = append(picks, k)
+		}
+	} else if res.Spec.Tier == "thorough" {
+		// very large or very long histories: a sample of resume points
+		for i := 0; i < 6; i++ {
+			picks = append(picks, cs.N(len(calls)))
 		}
 	} else {
 		n := 2
@@ -530,6 +542,7 @@ func checkC03Resume(t *testing.T, res *CaseResult, main *Run) []Violation {
 		r2 := Execute(t, sc2, res.Tape)
 		res.Runs = append(res.Runs, r2)
 		collectStats(res, r2)
+		r2.release()
 		if r2.HarnessErr != "" {
 			res.Harness = r2.HarnessErr
 			return nil
